@@ -21,6 +21,7 @@ Each leg owns its nonce cache and its own model instance.
 from __future__ import annotations
 
 import json
+import os
 import logging
 import random
 import types
@@ -555,6 +556,8 @@ def _run_history(chk: Check, hist: dict[str, Any], job: dict[str, Any]) -> None:
                         )
                         continue
                     chk.hit(f"{leg}:{got_reason}")
+                    if os.environ.get("VERIF_C22_TRACE") and leg == "direct":
+                        print("TRACE", si, shape, clock.wall, clock.mono, [t.split(".")[1:4] for t in instances], "model", want.kind, want.reason, "got", got_reason, flush=True)
                     if boundary:
                         # exact now - ts = skew + frac > skew, floor(now) - ts = skew: the spec does not fix the rounding
                         chk.skip("fractional_clock_at_expiry_boundary")
